@@ -734,7 +734,7 @@ func (w *WAL) AppendBatch(entries []*Entry) (uint64, error) {
 
 	// Calculate total size needed for all entries to ensure atomic writing
 	totalSize := 0
-	for _, entry := range entries {
+	for i, entry := range entries {
 		// Calculate size for each entry: Header(7) + Payload
 		entryType := entry.Type
 
@@ -742,6 +742,12 @@ func (w *WAL) AppendBatch(entries []*Entry) (uint64, error) {
 		payloadSize := 1 + 8 + 4 + len(entry.Key)
 		if entryType != OpTypeDelete {
 			payloadSize += 4 + len(entry.Value)
+		}
+
+		// Reject the whole batch before anything is buffered: a record written
+		// ahead of a failing one would otherwise stay in the log
+		if payloadSize > MaxRecordSize {
+			return 0, fmt.Errorf("failed to write entry %d: record too large: %d > %d", i, payloadSize, MaxRecordSize)
 		}
 
 		totalSize += HeaderSize + payloadSize
@@ -825,7 +831,7 @@ func (w *WAL) AppendBatchWithSequence(entries []*Entry, startSequence uint64) (u
 
 	// Calculate total size needed for all entries to ensure atomic writing
 	totalSize := 0
-	for _, entry := range entries {
+	for i, entry := range entries {
 		// Calculate size for each entry: Header(7) + Payload
 		entryType := entry.Type
 
@@ -833,6 +839,12 @@ func (w *WAL) AppendBatchWithSequence(entries []*Entry, startSequence uint64) (u
 		payloadSize := 1 + 8 + 4 + len(entry.Key)
 		if entryType != OpTypeDelete {
 			payloadSize += 4 + len(entry.Value)
+		}
+
+		// Reject the whole batch before anything is buffered: a record written
+		// ahead of a failing one would otherwise stay in the log
+		if payloadSize > MaxRecordSize {
+			return 0, fmt.Errorf("failed to write entry %d: record too large: %d > %d", i, payloadSize, MaxRecordSize)
 		}
 
 		totalSize += HeaderSize + payloadSize
